@@ -242,9 +242,9 @@ func (s *stubServer) serve(st *stubStream) {
 				continue
 			}
 			rib := &pendingResult{res: &spb.AFTResult{Id: op.GetId(), Status: spb.AFTResult_RIB_PROGRAMMED}}
-			pool = append(pool, rib)
 			if s.fib {
 				fs := spb.AFTResult_FIB_PROGRAMMED
+				ribAck := true
 				switch sim.Choose("flt", 8) {
 				case 1:
 					fs = spb.AFTResult_FIB_FAILED
@@ -252,10 +252,23 @@ func (s *stubServer) serve(st *stubStream) {
 					// the entry reached the RIB but the operation is then reported as failed outright
 					fs = spb.AFTResult_FAILED
 					sim.Probe("client: FAILED after RIB_PROGRAMMED in FIB-ack mode")
+				case 3:
+					// the server reports the FIB verdict only (the client dequeues on the FIB acknowledgement)
+					ribAck = false
+					if sim.Choose("flt", 2) == 1 {
+						fs = spb.AFTResult_FIB_FAILED
+					}
+					sim.Probe("client: FIB verdict without a RIB acknowledgement")
 				}
-				pool = append(pool, &pendingResult{res: &spb.AFTResult{Id: op.GetId(), Status: fs}, after: rib})
+				fr := &pendingResult{res: &spb.AFTResult{Id: op.GetId(), Status: fs}}
+				if ribAck {
+					pool = append(pool, rib)
+					fr.after = rib
+				}
+				pool = append(pool, fr)
 				s.terminal[op.GetId()] = fs
 			} else {
+				pool = append(pool, rib)
 				s.terminal[op.GetId()] = spb.AFTResult_RIB_PROGRAMMED
 			}
 		}
